@@ -8,7 +8,17 @@ from fractions import Fraction
 from .common import F, fs, pf, dy
 from . import gen, build
 
+import os
 BIG = 10**18
+# input families that exhibit a defect of the UNCHANGED tree are off until the defect is fixed or listed in known_findings.txt
+# (then flip the default here); `VERIF_FAMILIES=uint_ratios,user_fun_shape,cbound_oor` switches them on for one run
+KNOWN_DEFECT_FAMILIES = {'uint_ratios': True, 'user_fun_shape': True}    # both defects are repaired in /repo (3b8c601, 0f214fb): the families run on every seed
+
+
+def family(name):
+  return KNOWN_DEFECT_FAMILIES.get(name, False) or name in os.environ.get('VERIF_FAMILIES', '').split(',')
+
+
 ATOMIC = ['Device', 'PVDevice', 'CDevice', 'CDevice2', 'IDevice', 'IDevice2', 'GDevice', 'SDevice', 'TDevice', 'ADevice']
 
 
@@ -30,18 +40,32 @@ def type_code(c):
 
 
 def impl_rows(cons, probes, with_jac):
-  """one row per exported constraint, in list order: [isEq, (hasJac,) values at the probes (, flat Jacobians at the probes)]."""
-  rows = []
+  """one row per exported SCALAR constraint, in list order: [isEq, (hasJac,) values at the probes (, flat Jacobians at the probes)].
+  A vector-valued `fun` (one slack per component, legal for scipy) counts as that many scalar constraints.  Every `fun` and every
+  `jac` of the whole list is called at every probe BEFORE any result is converted or copied, so a Jacobian that is returned
+  through a shared buffer, or memoised at the first flow, shows."""
+  n_ = np()
+  raw = []
   for c in cons:
-    row = [type_code(c)]
-    if with_jac:
-      row.append(1.0 if 'jac' in c else 0.0)
-    for x in probes:
-      row.append(scalar(c['fun'](x)))
-    if with_jac and 'jac' in c:
-      for x in probes:
-        row += [float(u) for u in np().asarray(c['jac'](x), dtype=float).reshape(-1)]
-    rows.append(row)
+    vals = [c['fun'](x) for x in probes]
+    jacs = [c['jac'](x) for x in probes] if (with_jac and 'jac' in c) else None
+    raw.append((c, vals, jacs))
+  rows = []
+  for c, vals, jacs in raw:
+    vals = [n_.array(v, dtype=float).reshape(-1) for v in vals]
+    k = vals[0].size if vals else 1
+    if k == 0 or any(v.size != k for v in vals):
+      raise ValueError('constraint function returned %s values' % [v.size for v in vals])
+    J = [n_.array(j, dtype=float).reshape(k, -1) for j in jacs] if jacs is not None else None
+    for comp in range(k):
+      row = [type_code(c)]
+      if with_jac:
+        row.append(1.0 if jacs is not None else 0.0)
+      row += [float(v[comp]) for v in vals]
+      if J is not None:
+        for j in J:
+          row += [float(u) for u in j[comp]]
+      rows.append(row)
   return rows
 
 
@@ -178,13 +202,22 @@ def gen_cbound_form(rng, n, lb, hb, form=None):
 RATE_CLIPS = [(None, 'absent'), (None, 'absent'), ([None, None], 'none_kw'), ([None, None], 'pair'),
               (['1', None], 'pair'), ([None, '1'], 'pair'), ([None, '5/4'], 'pair'), (['2', None], 'pair'), ([None, '3'], 'pair'),
               (['3/2', '2'], 'pair'), (['3', '5/4'], 'pair'), (['1', '2'], 'pair'), (['1', '1'], 'pair'),
-              (['2', '2'], 'scalar'), (['1', '1'], 'scalar'), (['3/2', '3/2'], 'scalar')]
+              (['2', '2'], 'scalar'), (['1', '1'], 'scalar'), (['3/2', '3/2'], 'scalar'),
+              (['3', '5/4'], 'list'), (['1', '2'], 'list'), ([None, '2'], 'list'), (['3/2', None], 'list'),
+              (['3', '3/2'], 'ndarray'), (['5/4', '2'], 'ndarray')]
 
 
 def gen_cons_leaf(rng, tier, cls=None, n=None):
   """a leaf description exercising the constraint list of its class."""
-  cls = cls or rng.choice(ATOMIC + ['SDevice', 'SDevice', 'ADevice', 'Device'])
-  d = gen.gen_leaf(rng, tier, [cls], n=n)
+  cls = cls or rng.choice(ATOMIC + ['SDevice', 'SDevice', 'ADevice', 'Device', 'WindowDevice'])
+  if cls == 'WindowDevice':
+    # not modelled (its cost is not convex): an ORACLE-ONLY family.  It inherits ADevice's constraint handling and takes cbounds,
+    # so the membership / finite-difference oracles speak about it; a subclass override is invisible to the T1 translation
+    d = gen.gen_leaf(rng, tier, ['Device'], n=n)
+    d['cls'] = 'WindowDevice'
+    d['prm'] = {'w': fs(dy(rng, 1, 6)), 'c': fs(dy(rng, 0, 2))}
+  else:
+    d = gen.gen_leaf(rng, tier, [cls], n=n)
   n = d['n']
   lb = [F(x) for x in d['lb']]; hb = [F(x) for x in d['hb']]
   tag = {'cls': cls, 'cform': 'none'}
@@ -196,8 +229,21 @@ def gen_cons_leaf(rng, tier, cls=None, n=None):
     d['cbs'] = [[fs(r[0]), fs(r[1]), r[2], r[3]] for r in rows]
     d['_py']['cform'] = pyform
     tag['cform'] = form
+    if rng.random() < 0.3:
+      # a limit off the dyadic grid (k/10^7), moved outwards so that the constructor's feasibility checks still pass
+      r = rng.randrange(len(rows)); k = Fraction(rng.choice([3, 4, 7, 12]), 10**7)
+      if rng.random() < 0.5:
+        d['cbs'][r][0] = fs(F(d['cbs'][r][0]) - k)
+      else:
+        d['cbs'][r][1] = fs(F(d['cbs'][r][1]) + k)
+      tag['climit'] = 'decimal'
   else:
     d['cbs'] = []; d['_py']['cform'] = None
+  if d['cbs'] and cls != 'CDevice2':
+    # how the caller writes the rows down: tuples, LISTS (what the builder loader emits), integer ndarrays; in a list or a tuple
+    d['_py']['crows'] = rng.choice(['tuple', 'tuple', 'list', 'list', 'ndarray'])
+    d['_py']['ccont'] = rng.choice(['list', 'list', 'tuple'])
+    tag['crows'] = d['_py']['crows']
   if cls == 'SDevice':
     rc, rcform = rng.choice(RATE_CLIPS)
     if rc is not None:
@@ -215,21 +261,122 @@ def gen_cons_leaf(rng, tier, cls=None, n=None):
     tag['lossy'] = d['prm']['efficiency'] != '1'
     tag['leaky'] = d['prm']['sustainment'] != '1'
   if cls == 'ADevice' and rng.random() < 0.8:
-    d['ucons'] = gen.gen_ucons(rng, n, lb, hb)
+    d['ucons'] = gen_ucons(rng, n, lb, hb)
     tag['ucons'] = len(d['ucons'])
   return d, tag
 
 
+def gen_ucons(rng, n, lb, hb, quad=False):
+  """user constraints of an ADevice as data.  The Lean driver reads `type, w, c, n, jac` (w.x + c >= 0 / == 0); the
+  private hints say how the Python side writes them: `_extra` adds a harmless extra key to the dict (scipy's `args`), entries
+  sharing a `_vg` number are ONE vector-valued constraint (one slack per slot: w_k x_k + c_k, no jac), `_noflat` indexes the flow
+  it is given without flattening it.  `quad` appends a quadratic constraint r - sum (x - q)^2 >= 0 with its own Jacobian
+  -2 (x - q) (flow-dependent; the model has no such constraint, so the case is oracle-only)."""
+  out = gen.gen_ucons(rng, n, lb, hb)
+  for u in out:
+    if rng.random() < 0.3:
+      u['_extra'] = True
+  if rng.random() < 0.3 and 2 <= n <= 8:
+    ty = rng.choice(['ineq', 'ineq', 'eq'])
+    for k in range(n):
+      wk = dy(rng, -2, 2)
+      w = [F(0)]*n; w[k] = wk
+      out.append({'type': ty, 'w': [fs(x) for x in w], 'c': fs(-wk*(lb[k] + hb[k])/2 + dy(rng, 0, 1)), 'n': n, 'jac': False, '_vg': 1})
+  if family('user_fun_shape') and rng.random() < 0.3:
+    k = rng.randrange(n); wk = dy(rng, 1, 2)
+    w = [F(0)]*n; w[k] = wk
+    out.append({'type': 'ineq', 'w': [fs(x) for x in w], 'c': fs(-wk*(lb[k] + hb[k])/2 + dy(rng, 0, 1)), 'n': n, 'jac': False, '_noflat': k})
+  if quad:
+    q = [(a + b)/2 + dy(rng, -1, 1) for a, b in zip(lb, hb)]
+    out.append({'type': 'ineq', 'quad': True, 'q': [fs(x) for x in q], 'r': fs(dy(rng, 1, 8) + sum(((b - a)/2)**2 for a, b in zip(lb, hb))), 'n': n, 'jac': True})
+  return out
+
+
+def has_quad(d):
+  return any(u.get('quad') for u in (d.get('ucons') or []))
+
+
+def build_ucons(ucons):
+  """the Python constraint dicts of a user-constraint description (see gen_ucons)."""
+  n_ = np()
+  out, groups = [], {}
+  for u in ucons:
+    if u.get('quad'):
+      q = n_.array([pf(x) for x in u['q']]); r = pf(u['r'])
+      out.append({'type': u['type'], 'fun': (lambda x, q=q, r=r: float(r - ((n_.asarray(x, dtype=float).reshape(-1) - q)**2).sum())),
+                  'jac': (lambda x, q=q: -2.0*(n_.asarray(x, dtype=float).reshape(-1) - q))})
+      continue
+    w = n_.array([pf(x) for x in u['w']]); c = pf(u['c'])
+    if u.get('_vg') is not None:
+      g = groups.get(u['_vg'])
+      if g is None:
+        g = groups[u['_vg']] = {'W': n_.zeros(len(w)), 'C': [], 'K': []}
+        out.append({'type': u['type'], 'fun': (lambda x, g=g: n_.asarray(x, dtype=float).reshape(-1)[g['K']]*g['W'][g['K']] + n_.array(g['C']))})
+      k = int(n_.flatnonzero(w)[0]) if n_.flatnonzero(w).size else len(g['K'])
+      g['W'][k] = w[k]; g['K'].append(k); g['C'].append(c)
+      continue
+    if u.get('_noflat') is not None:
+      k = u['_noflat']
+      con = {'type': u['type'], 'fun': (lambda x, k=k, wk=w[k], c=c: x[k]*wk + c)}      # written for the device's flow VECTOR
+    else:
+      con = {'type': u['type'], 'fun': (lambda x, w=w, c=c: float(n_.array(x).reshape(-1).dot(w) + c))}
+    if u.get('jac', True):
+      con['jac'] = (lambda x, w=w: w.copy())
+    if u.get('_extra'):
+      con['args'] = ()
+    out.append(con)
+  return out
+
+
 # ---------------------------------------------------------------- building
+def py_cbounds(d):
+  """`build.py_cbounds` plus the container forms a caller may use (`_py.crows`: rows as tuples / lists / integer ndarrays when every
+  entry is whole; `_py.ccont`: the rows in a list or a tuple; the 2-tuple form also as a 2-list)."""
+  n_ = np()
+  base = _orig_py_cbounds(d)
+  py = d.get('_py', {})
+  rows, cont = py.get('crows', 'tuple'), py.get('ccont', 'list')
+  if base is None or rows == 'tuple' and cont == 'list':
+    return base
+  if isinstance(base, tuple):          # the (low, high) form
+    return list(base) if rows == 'list' else base
+  def row(r):
+    if rows == 'list':
+      return list(r)
+    if rows == 'ndarray' and all(float(v).is_integer() for v in r):
+      return n_.array([int(v) for v in r], dtype=int)
+    return tuple(r)
+  out = [row(r) for r in base]
+  return tuple(out) if cont == 'tuple' else out
+
+
+_orig_py_cbounds = build.py_cbounds
+
+
+def _build_leaf(d, id):
+  """build.build_leaf with this module's cumulative-bound forms (build_leaf looks `py_cbounds` up in its module at call time)."""
+  build.py_cbounds = py_cbounds
+  try:
+    return build.build_leaf(d, id)
+  finally:
+    build.py_cbounds = _orig_py_cbounds
+
+
 def build_dev(d, id='dev'):
-  """`build.build_block_device` plus the Python-side forms only this generator uses: `rate_clip` handed over as a scalar /
-  as the keyword None, and a storage device one of whose parameters was set through its setter AFTER a first read of
+  """`build.build_block_device` plus the Python-side forms only this generator uses: cumulative-bound rows as lists / arrays,
+  `rate_clip` handed over as a scalar / the keyword None / a list / an ndarray, the richer user-constraint alphabet, the
+  (unmodelled) WindowDevice, and a storage device one of whose parameters was set through its setter AFTER a first read of
   `.constraints` (the exported list must describe the device as it is now)."""
   py = d.get('_py', {})
-  if d['cls'] != 'SDevice' or (py.get('rcform') in (None, 'pair', 'absent') and not py.get('reread')):
-    return build.build_block_device(d, id)
   from .common import repo
   dk = repo()
+  if d['cls'] == 'WindowDevice':
+    return dk.WindowDevice(id, d['n'], build.py_bounds(d), pf(d['prm']['w']), cbounds=py_cbounds(d), c=pf(d['prm']['c']))
+  if d['cls'] == 'ADevice' and 'ucons' in d:
+    d = dict(d); d['_constraints'] = build_ucons(d['ucons'])
+    return _build_leaf(d, id)
+  if d['cls'] != 'SDevice' or (py.get('rcform') in (None, 'pair', 'absent') and not py.get('reread')):
+    return _build_leaf(d, id)
   p = dict(d['prm'])
   rr = py.get('reread')
   if rr:
@@ -241,20 +388,18 @@ def build_dev(d, id='dev'):
   elif form == 'scalar':
     kw['rate_clip'] = pf(p['rate_clip'][0])
   elif 'rate_clip' in p:
-    kw['rate_clip'] = tuple(None if x is None else pf(x) for x in p['rate_clip'])
-  dev = dk.SDevice(id, d['n'], build.py_bounds(d), build.py_cbounds(d), **kw)
+    pair = [None if x is None else pf(x) for x in p['rate_clip']]
+    kw['rate_clip'] = list(pair) if form == 'list' else np().array(pair, dtype=float) if (form == 'ndarray' and None not in pair) else tuple(pair)
+  dev = dk.SDevice(id, d['n'], build.py_bounds(d), py_cbounds(d), **kw)
   if rr:
     _ = dev.constraints
     setattr(dev, rr[0], pf(d['prm'][rr[0]]))
   return dev
 
 
-RATIO_FORMS = ['list', 'tuple', 'intarray', 'floatarray', 'floatarray']
-
-
 def build_tree(t, owned=None):
-  """`build.build_tree` plus (a) the forms a caller may hand the two-ratio vector over in (`_py.rform`: list / tuple / integer
-  ndarray when integer-valued / float64 ndarray) and (b) a record, in `owned`, of every array the CALLER still owns after
+  """`build.build_tree` plus (a) the forms a caller may hand the two-ratio vector over in (`_rform`, see gen_sets.set_ratios:
+  list / tuple / float ndarray / integer list / integer ndarray; ratios of either sign) and (b) a record, in `owned`, of every array the CALLER still owns after
   construction (ratios, aggregate bounds), so that the oracle can check the library did not write into them."""
   n_ = np()
   from .common import repo
@@ -265,18 +410,12 @@ def build_tree(t, owned=None):
   if t['k'] == 'mf':
     dev = build_dev(t['dev'], t['id'])
     if t.get('ratios'):
-      vals = [pf(x) for x in t['ratios']]
-      form = t.get('_py', {}).get('rform', 'list')
-      if form == 'intarray' and not all(float(v).is_integer() for v in vals):
-        form = 'floatarray'
-      if form == 'tuple':
-        r = tuple(vals)
-      elif form == 'intarray':
-        r = n_.array([int(v) for v in vals], dtype=int); owned.append(('ratios of ' + t['id'], r))
-      elif form == 'floatarray':
-        r = n_.array(vals, dtype=float); owned.append(('ratios of ' + t['id'], r))
-      else:
-        r = list(vals)
+      from . import gen_sets
+      r = gen_sets.py_ratios(t) if '_rform' in t else [pf(x) for x in t['ratios']]
+      if t.get('_rform') == 'uint-ndarray':
+        r = n_.array([int(F(x)) for x in t['ratios']], dtype=n_.uint8)
+      if isinstance(r, n_.ndarray):
+        owned.append(('ratios of ' + t['id'], r))
       return dk.TwoRatioMFDeviceSet(dev, list(t['flows']), r, t.get('ctype', 'eq'))
     return dk.MFDeviceSet(dev, list(t['flows']))
   kids = [build_tree(c, owned) for c in t['ch']]
@@ -350,6 +489,9 @@ def spec_slacks(d, x):
       for i in range(n):
         out.append(('rate_clip_hi[%d]' % i, pf(rc[1])*hb[i]*(1 - c[i]/cap) - x[i]))
   for ui, u in enumerate(d.get('ucons') or []):
+    if u.get('quad'):
+      out.append(('user%d(quadratic)' % ui, pf(u['r']) - sum((xk - pf(q))**2 for q, xk in zip(u['q'], x))))
+      continue
     v = sum(pf(w)*xk for w, xk in zip(u['w'], x)) + pf(u['c'])
     out.append(('user%d(%s)' % (ui, u['type']), v if u['type'] == 'ineq' else -abs(v)))
   return out
